@@ -38,16 +38,26 @@ Rules2 ==
                         Req(<<"eq", <<"var", "n">>, <<"k", <<"i", 2>>>>>>)>>),
       T     |-> Rule(SepTrailer(Ref("W"), Str(<<44>>))) ]
 
+(* bytes mode: byte literals, byte strings and byte regexes; the text is a bytes object *)
+Rules3 ==
+    [ start |-> Rule(Seq2(Ref("H"), Opt(Ref("Body")))),
+      H     |-> Rule(<<"byte", a>>),
+      Body  |-> Rule(Plus(Ch2(Str(<<b, b>>), Rgx(Cls(<<a>>))))),
+      R     |-> Class(<<Field("h", Ref("H")), Field("n", Star(<<"byte", b>>))>>) ]
+
 Grammar(i) ==
-    CASE i = 1 -> [rules |-> Rules1, ign |-> <<>>, start |-> "start"]
+    CASE i = 5 -> [rules |-> Rules3, ign |-> <<>>, start |-> "start"]
+      [] i = 1 -> [rules |-> Rules1, ign |-> <<>>, start |-> "start"]
       [] i = 2 -> [rules |-> Rules1, ign |-> <<Rgx(RxPlus(Cls(<<sp>>)))>>, start |-> "start"]
       [] i = 3 -> [rules |-> Rules2, ign |-> <<>>, start |-> "start"]
       [] i = 4 -> [rules |-> Rules2, ign |-> <<Rgx(RxPlus(Cls(<<sp>>)))>>, start |-> "start"]
 
 Entries(i) == IF i <= 2 THEN <<"start", "X", "Y", "K", "N", "Z", "E", "L", "M", "F">>
+              ELSE IF i = 5 THEN <<"start", "H", "Body", "R">>
               ELSE <<"start", "Item", "W", "P", "Q", "T">>
 
 Alpha(i) == CASE i = 1 -> <<a, b>> [] i = 2 -> <<a, b, sp>> [] i = 3 -> <<a, b, 40, 41>> [] i = 4 -> <<a, 40, 41, sp>>
+              [] i = 5 -> <<a, b, 10>>
 
 N == IF Tier = "quick" THEN 4 ELSE 5
 Texts(i) == TextSeqUpTo(Alpha(i), IF i = 1 THEN N + 1 ELSE N)
@@ -56,12 +66,13 @@ Texts(i) == TextSeqUpTo(Alpha(i), IF i = 1 THEN N + 1 ELSE N)
 VARIABLES gi, en, done
 vars == <<gi, en, done>>
 
-Init == gi \in 1..4 /\ en \in 1..Len(Entries(gi)) /\ done = FALSE
+Init == gi \in 1..5 /\ en \in 1..Len(Entries(gi)) /\ done = FALSE
 
 Step == /\ ~done
         /\ done' = TRUE
         /\ UNCHANGED <<gi, en>>
-        /\ EmitCasePos(Grammar(gi), [prop |-> "C08"], <<Entries(gi)[en]>>, AllPos(Texts(gi), 1, 0))
+        /\ EmitCasePos(Grammar(gi), IF gi = 5 THEN [prop |-> "C08", bytes |-> TRUE] ELSE [prop |-> "C08"],
+                       <<Entries(gi)[en]>>, AllPos(Texts(gi), 1, 0))
 
 Next == Step
 
